@@ -5,7 +5,11 @@ cd /verif/coq
 MODS=$(/venv/bin/python - <<'PY'
 import json
 m = json.load(open("/verif/MANIFEST.json"))
-print(" ".join(f"BP.Properties.{c['property_id']}" for c in m["checks"]))
+import glob, os
+mods = [f"BP.Properties.{c['property_id']}" for c in m["checks"]]
+# satellites built by a stage of a check (C16Src, C16SrcZigzag), when compiled
+mods += ["BP.Properties." + os.path.basename(f)[:-3] for f in sorted(glob.glob("/verif/coq/Properties/C*Src*.vo"))]
+print(" ".join(mods))
 PY
 )
 ( echo "# coqchk -o over: $MODS"; echo "# $(coqchk --version 2>&1 | head -1)"; date -u;
